@@ -3,6 +3,7 @@
 //!   avsim --property C02 --tier quick|thorough [--seed N] [--scale F]
 //!   avsim --replay <file>
 //!   avsim --trace-hash --property C02 --runs N [--seed N]     (determinism selftest)
+mod concat;
 mod drv_rayon;
 mod durable;
 mod envelope;
